@@ -34,6 +34,29 @@ ERRNOS = {"ENOSPC": 28, "EACCES": 13, "EIO": 5, "EINTR": 4, "EROFS": 30}
 FINDING_TEMP = "C16-cleanup-fault-leaves-temp"
 SHORT = "short"        # fault kind for a raw os.write on a tracked descriptor: a proper prefix is written, the count returned
 RAW_WRITE_OPS = ("os_write",)
+# metadata calls (chmod family, utime, chown): faulted additionally with the errnos such calls produce on vfat / SMB / FUSE /
+# read-only mounts / vanished paths
+META_ERRNOS = {"EPERM": 1, "EACCES": 13, "EROFS": 30, "ENOENT": 2}
+ALL_ERRNO_NAMES = {**{v: k for k, v in ERRNOS.items()}, **{v: k for k, v in META_ERRNOS.items()}}
+
+
+def is_meta_op(op):
+    return op.split(":")[0] in ("fchmod", "chmod", "lchmod", "utime", "futime", "chown", "lchown", "fchown")
+
+
+def nl(text):
+    """what a text-mode read (universal newlines) sees; the MODEL's file content is this view, byte-exactness is the judge's job"""
+    return text.replace("\r\n", "\n").replace("\r", "\n")
+
+
+def crlf_variants(text):
+    lines = text.split("\n")[:-1]
+    return {
+        "crlf": "".join(x + "\r\n" for x in lines),
+        "cr": "".join(x + "\r" for x in lines),
+        "mixed": "".join(x + ("\r\n" if i % 3 == 0 else ("\r" if i % 3 == 1 else "\n")) for i, x in enumerate(lines)),
+        "lastcrlf": "".join(x + "\n" for x in lines[:-1]) + lines[-1] + "\r\n",
+    }
 
 OLD = '===DOC===\nMETA:\n  TYPE::NOTE\nA::1\nB::"café au lait"\n===END===\n'
 NEW = '===DOC===\nMETA:\n  TYPE::NOTE\nA::2\nC::[x,y]\nB::"naïve text"\n===END===\n'
@@ -56,8 +79,30 @@ ATOMIC_PREFIX = (("Hash mismatch", "E_HASH"), ("Read error", "E_READ"), ("Write 
                  ("Cannot write to symlink", "E_WRITE"))
 
 
+CLI_PREFIX = ATOMIC_PREFIX + (("File does not exist", "E_FILE"), ("Path traversal", "E_PATH"), ("Symlink in path", "E_PATH"),
+                             ("Invalid file extension", "E_PATH"), ("Path resolution failed", "E_PATH"), ("Invalid path", "E_PATH"))
+
+
 def canon_envelope(api, r):
     """Only what the property names: status, error code class, canonical_hash."""
+    if api == "cli":
+        # r = {"exit": code, "out": stdout, "err": stderr} of `octave write ...`
+        if r["exit"] == 0:
+            h = ""
+            for ln in r["out"].splitlines():
+                if ln.startswith("canonical_hash:"):
+                    h = ln.split(":", 1)[1].strip()
+            return {"status": "success", "code": "", "hash": h}
+        msg = ""
+        for ln in (r["err"] + "\n" + r["out"]).splitlines():
+            if ln.startswith("Error:"):
+                msg = ln[6:].strip()
+                break
+        code = "E_PIPE"
+        for pre, c in CLI_PREFIX:
+            if msg.startswith(pre):
+                code = c
+        return {"status": "error", "code": code, "hash": ""}
     if not isinstance(r, dict):
         return {"status": "noenvelope", "code": type(r).__name__, "hash": ""}
     st = r.get("status")
@@ -77,8 +122,34 @@ def canon_envelope(api, r):
     return {"status": "error", "code": code, "hash": ""}
 
 
+def _call_cli(target, args):
+    """`octave write <target> --content|--changes .. [--base-hash H]` through the click command, in this process"""
+    import json as _json
+    from click.testing import CliRunner
+    from octave_mcp.cli.main import cli
+    argv = ["write", target]
+    if "content" in args:
+        argv += ["--content", args["content"]]
+    if "changes" in args:
+        argv += ["--changes", _json.dumps(args["changes"])]
+    if args.get("base_hash"):
+        argv += ["--base-hash", args["base_hash"]]
+    res = CliRunner().invoke(cli, argv)
+    try:
+        err = res.stderr
+    except Exception:  # click < 8.2 without separate capture
+        err = ""
+    try:
+        out = res.stdout
+    except Exception:
+        out = res.output
+    return {"exit": res.exit_code, "out": out or "", "err": err or ""}
+
+
 def _call(api, target, args):
     import asyncio
+    if api == "cli":
+        return _call_cli(target, args)
     if api == "atomic":
         from octave_mcp.core.file_ops import atomic_write_octave
         return atomic_write_octave(target, args["content"], args.get("base_hash"))
@@ -278,6 +349,25 @@ def scenarios():
     add("atomic-stale", "atomic", "atomic", t, ex(OLD), content=NEW, base_hash=sha(NEW))
     add("atomic-mkparent", "atomic", "atomic", "a/b/f.oct.md", [], content=NEW)
     add("atomic-readonly+base", "atomic", "atomic", t, ex(OLD, 0o444), content=NEW, base_hash=sha(OLD))
+    # existing target whose BYTES differ from what the text-mode baseline read sees (CRLF / lone CR / mixed / only the last
+    # line), otherwise already canonical, written by an operation whose result is that same text: normalize, content with the
+    # same text, changes setting a field to its current value -- with and without base_hash (the hash of the text as read).
+    # "unchanged content" must still end with bytes that hash to the returned canonical_hash.
+    for vn, data in crlf_variants(OLD).items():
+        for bn, bh in (("", {}), ("+base", {"base_hash": sha(OLD)})):
+            add(f"{vn}-normalize{bn}", "execute", "normalize", t, ex(data, 0o640), **bh)
+            add(f"{vn}-same-content{bn}", "execute", "content", t, ex(data, 0o644), content=OLD, **bh)
+            add(f"{vn}-same-changes{bn}", "execute", "changes", t, ex(data, 0o664), changes={"A": 1}, **bh)
+        add(f"{vn}-atomic-same+base", "atomic", "atomic", t, ex(data, 0o644), content=OLD, base_hash=sha(OLD))
+    # the CLI `octave write` (pre-phase + atomic_write_octave): judged by the property; not compared with a protocol model
+    add("cli-content-new", "cli", "cli", t, d, content=NEW)
+    add("cli-content-overwrite+base", "cli", "cli", t, ex(OLD, 0o640), content=NEW, base_hash=sha(OLD))
+    add("cli-changes", "cli", "cli", t, ex(OLD, 0o664), changes=CHANGES)
+    add("cli-changes+base", "cli", "cli", t, ex(OLD, 0o600), changes=CHANGES, base_hash=sha(OLD))
+    add("cli-changes-crlf-same+base", "cli", "cli", t, ex(crlf_variants(OLD)["crlf"], 0o644), changes={"A": 1}, base_hash=sha(OLD))
+    add("cli-content-mkparent", "cli", "cli", "a/b/f.oct.md", [], content=NEW)
+    for n in S:
+        S[n]["light"] = n.split("-")[0] in ("crlf", "cr", "mixed", "lastcrlf") and not n.startswith("crlf-")
     return S
 
 
@@ -377,7 +467,7 @@ TAG_NAMES = {
     30: {"lstat", "stat:target", "stat:other"},
 }
 VALIDATION_OPS = {"lstat", "stat:target", "stat:other"}
-ERRNO_TOK = {28: "f28", 13: "f13", 5: "f5", 4: "f4", 30: "f30"}
+ERRNO_TOK = {28: "f28", 13: "f13", 5: "f5", 4: "f4", 30: "f30", 1: "f1", 2: "f2"}
 
 
 def nval_of(trace):
@@ -407,7 +497,7 @@ def model_line(sc, pipe, nval, crash_at, fail_at, orc, texts):
         if kind == "D":
             fs.append(enc_str(mpath(rel)) + "|D")
         else:
-            fs.append(enc_str(mpath(rel)) + "|F|" + enc_str(data) + "|" + str(mode))
+            fs.append(enc_str(mpath(rel)) + "|F|" + enc_str(nl(data)) + "|" + str(mode))
     return " ".join([
         "run", sc["mode"], enc_str(mpath(sc["target"])), enc_str(mpath(os.path.dirname(sc["target"]))),
         ",".join(enc_str(mpath(c)) for c in chain), enc_str(tmp), enc_str(base) if base else "~", pt,
@@ -443,7 +533,7 @@ def real_node(v):
     if v[0] == "L":
         return ("L", v[1])
     try:
-        return ("F", v[1].decode("utf-8"), v[2])
+        return ("F", nl(v[1].decode("utf-8")), v[2])
     except UnicodeDecodeError:
         return ("F", repr(v[1]), v[2])
 
@@ -609,7 +699,7 @@ def _run(ctx, pool):
         if oc[0] == "success":
             text = rec["after"][sc["target"]][1].decode("utf-8")
             canon[n].add(text)
-        key = None if (sc["api"] == "atomic") else v
+        key = None if (sc["api"] == "atomic") else (None if v is None else nl(v))
         if (key, text) not in pipe[n]:
             pipe[n].append((key, text))
     base = {}
@@ -624,7 +714,7 @@ def _run(ctx, pool):
 
     def texts_of(n):
         sc = S[n]
-        t = {"", OLD, NEW, NONCANON, FRONT} | canon[n]
+        t = {"", OLD, NEW, NONCANON, FRONT} | canon[n] | {nl(e[2]) for e in sc["fs"] if e[1] == "F"}
         return sorted(t)
 
     # ---- task list ------------------------------------------------------------------------------------------
@@ -632,10 +722,16 @@ def _run(ctx, pool):
     for n in names:
         tasks.append((n, None, None))
         nops = len(base[n]["trace"])
+        light = ctx.quick() and S[n].get("light")
         for k in range(nops):
+            op = base[n]["trace"][k]
             tasks.append((n, k, None))
-            for e in ERRNOS.values():
+            for e in ([ERRNOS["EIO"]] if light else ERRNOS.values()):
                 tasks.append((n, None, {k: e}))
+            if is_meta_op(op):
+                for e in META_ERRNOS.values():
+                    if light or e not in ERRNOS.values():
+                        tasks.append((n, None, {k: e}))
             if base[n]["trace"][k] in RAW_WRITE_OPS:
                 tasks.append((n, None, {k: SHORT}))
     # corpus first
@@ -655,7 +751,7 @@ def _run(ctx, pool):
             tr = pool.map(_worker, [(S[c["scenario"]], None, dict(fa) or None, None)])[0].get("trace", [])
             ks = [k for k, o in enumerate(tr) if o == op]
             if len(ks) > occ:
-                fa[ks[occ]] = SHORT if err == SHORT else ERRNOS[err]
+                fa[ks[occ]] = SHORT if err == SHORT else {**ERRNOS, **META_ERRNOS}[err]
         corpus_tasks.append((c["scenario"], c.get("crash_at"), fa or None))
 
     results = []        # (name, crash_at, fail_at, rec)
@@ -685,6 +781,9 @@ def _run(ctx, pool):
         for k2 in range(k1 + 1, len(rec["trace"])):
             for e2 in e_list:
                 pair_tasks.append((n, None, {k1: e1, k2: e2}))
+            if is_meta_op(rec["trace"][k2]):
+                for e2 in (META_ERRNOS["EPERM"], META_ERRNOS["ENOENT"]):
+                    pair_tasks.append((n, None, {k1: e1, k2: e2}))
             if rec["trace"][k2] in RAW_WRITE_OPS:
                 pair_tasks.append((n, None, {k1: e1, k2: SHORT}))
             pair_tasks.append((n, k2, {k1: e1}))
@@ -738,6 +837,8 @@ def _run(ctx, pool):
                 if fa and SHORT in fa.values():
                     continue      # a short raw write is outside the protocol language (the translator fails closed on os.write)
                 sc = S[n]
+                if sc["api"] == "cli":
+                    continue      # no protocol model of the CLI pre-phase: property judge only
                 nval = nval_of(base[n]["trace"])
                 extra = [e for e in new_entries(rec, sc) if rec["after"][e][0] == "F"]
                 L = 0
@@ -780,7 +881,7 @@ def _run(ctx, pool):
             if int(k) < len(rec["trace"]):
                 ctx.hist("fault_op", rec["trace"][int(k)])
         for e in (fa or {}).values():
-            ctx.hist("errno", {v: k for k, v in ERRNOS.items()}.get(e, e))
+            ctx.hist("errno", ALL_ERRNO_NAMES.get(e, e))
         ctx.nontrivial((n, plan_key(ca, fa)))
         verdicts = judge(sc, rec, canon[n], fa)
         for what, fid in verdicts:
